@@ -677,9 +677,14 @@ func c30GenTLV(t *rapid.T, label string) c30TLV {
 			if plen < 32 { // callers pass the base address of an interface prefix
 				addr &^= (uint32(1) << (32 - plen)) - 1
 			}
-			o.AddExtendedIPReachability(packet.NewExtendedIPReachability(metric, plen, addr))
+			// control octet: up/down bit (RFC 5305 section 4) | sub-TLV bit (never set: bio-rd has no sub-TLVs to send) | 6 bit prefix length
+			ctl := plen
+			if rapid.IntRange(0, 3).Draw(t, label+"_updown") == 0 {
+				ctl |= 0x80
+			}
+			o.AddExtendedIPReachability(packet.NewExtendedIPReachability(metric, ctl, addr))
 			raw = append(raw, c30U32(metric)...)
-			raw = append(raw, plen)
+			raw = append(raw, ctl)
 			raw = append(raw, c30U32(addr)[:(int(plen)+7)/8]...)
 		}
 		return c30TLV{kind: kind, obj: o, typ: 135, raw: raw}
